@@ -15,6 +15,7 @@ ok, msg = lib.regen_tables()
 print(msg)
 if not ok:
     sys.exit(1)
+lib.gen_coqproject()
 PY
 cd coq
 timeout 300 coq_makefile -f _CoqProject -o Makefile 2>/dev/null
